@@ -276,6 +276,25 @@ func (e *Engine) loadContractFile(path string, pkg *types.Package) error {
 			curMon = m
 			pendingPred, cur, lastClause = nil, nil, nil
 			continue
+		case kw == "local":
+			// local <function key> <name> <rank> <signature...>: generated hint (locals.go)
+			if len(fields) < 5 {
+				return fail(fmt.Errorf("local: expected <function> <name> <rank> <signature>"))
+			}
+			var rk, tot int
+			if _, err := fmt.Sscanf(fields[3], "%d/%d", &rk, &tot); err != nil {
+				return fail(fmt.Errorf("local: rank/total: %v", err))
+			}
+			if e.localHints == nil {
+				e.localHints = map[string]map[string]localHint{}
+			}
+			if e.localHints[fields[1]] == nil {
+				e.localHints[fields[1]] = map[string]localHint{}
+			}
+			i := strings.Index(text, " "+fields[3]+" ")
+			e.localHints[fields[1]][fields[2]] = localHint{Rank: rk, Total: tot, Sig: strings.TrimSpace(text[i+len(fields[3])+2:])}
+			pendingPred, cur, lastClause = nil, nil, nil
+			continue
 		case kw == "ghostfield":
 			// ghostfield NAME [sort]: per-object ghost state, read as NAME(obj)
 			g := &GhostFunc{Name: fields[1], Field: true, Ret: "Int"}
